@@ -156,7 +156,36 @@ structure Variant where
   multiRowFixed : Bool := false
   deriving DecidableEq, Repr, Inhabited
 
-def utf16LenV (v : Variant) (b : Bytes) : Nat := if v.lossyFixed then utf16Spec b else utf16Len b
+/-- `LossyUtf8` as committed with the C17 repair (HEAD of /repo): a pending replacement is emitted even
+at the end of the input, and a truncated final sequence is an ill-formed part reaching to the end. -/
+def lossyUnitsF (bytes : Bytes) (inRepl : Bool) : Nat :=
+  if inRepl then 1 + lossyUnitsF bytes false
+  else if h : bytes = [] then 0
+  else
+    let r := scan bytes
+    match r.err with
+    | none => r.u16
+    | some (some k) =>            -- error_len = Some(k + 1)
+      if hv : r.validUpTo > 0 then r.u16 + lossyUnitsF (bytes.drop (r.validUpTo + (k + 1))) true
+      else 1 + lossyUnitsF (bytes.drop (k + 1)) false
+    | some none =>                -- error_len = None: unwrap_or(len - error_start)
+      if hv : r.validUpTo > 0 then
+        r.u16 + lossyUnitsF (bytes.drop (r.validUpTo + (bytes.length - r.validUpTo))) true
+      else 1 + lossyUnitsF (bytes.drop (bytes.length - r.validUpTo)) false
+termination_by (bytes.length, if inRepl then 1 else 0)
+decreasing_by
+  all_goals first
+    | (simp_all [Prod.lex_def]; done)
+    | (have : 0 < bytes.length := List.length_pos_iff.mpr h
+       simp [Prod.lex_def, List.length_drop]; omega)
+    | (have : 0 < bytes.length := List.length_pos_iff.mpr h
+       simp only [r] at hv
+       simp [Prod.lex_def, List.length_drop]; omega)
+
+/-- `utf16_len` over the repaired `LossyUtf8`. -/
+def utf16LenF (bytes : Bytes) : Nat := lossyUnitsF bytes false
+
+def utf16LenV (v : Variant) (b : Bytes) : Nat := if v.lossyFixed then utf16LenF b else utf16Len b
 
 /-! ## `line_range` -/
 
@@ -619,4 +648,50 @@ def arrivals (v : Variant) (cfg : Cfg) (src : Bytes) : List Mat → St → Queue
     let st1 : St := { st with queue := (flushReadyP st.queue.length st.queue).2 }
     (inserted v cfg src m st1).toList ++ arrivals v cfg src ms (processMatch v cfg src m st1)
 
+end TsVerif.C18
+
+namespace TsVerif.C18
+
+/-- `run`, keeping the flush batches apart: one list per `flushReady` call and one for the final drain. -/
+def runB (v : Variant) (cfg : Cfg) (src : Bytes) : List Mat → St → List (List Tag)
+  | [], st => [drain v.drainSkips st.queue.length st.queue]
+  | m :: ms, st =>
+    let (out, q) := flushReady st.queue.length st.queue
+    out :: runB v cfg src ms (processMatch v cfg src m { st with queue := q })
+
+end TsVerif.C18
+
+namespace TsVerif.C18
+
+/-- `bound < k` where `none` is "no bound yet". -/
+def bLt (b : Option (Nat × Nat)) (k : Nat × Nat) : Bool :=
+  match b with
+  | none => true
+  | some b => keyLt b k
+
+/-- The largest key popped so far, after popping the (sorted) prefix `popped`. -/
+def newBound (popped : Queue) (bound : Option (Nat × Nat)) : Option (Nat × Nat) :=
+  match popped.getLast? with
+  | some l => some (key l.1)
+  | none => bound
+
+/-- **No late arrival**: every entry a match inserts has a key larger than the key of every entry
+popped (flushed) before it; `bound` is the largest key popped so far. -/
+def noLate (v : Variant) (cfg : Cfg) (src : Bytes) : Option (Nat × Nat) → List Mat → St → Bool
+  | _, [], _ => true
+  | bound, m :: ms, st =>
+    let q := (flushReadyP st.queue.length st.queue).2
+    let popped := st.queue.take (st.queue.length - q.length)
+    let bound' := newBound popped bound
+    let st1 : St := { st with queue := q }
+    (match inserted v cfg src m st1 with
+     | some a => bLt bound' (key a.1)
+     | none => true) && noLate v cfg src bound' ms (processMatch v cfg src m st1)
+
+end TsVerif.C18
+
+namespace TsVerif.C18
+/-- Test matches with a pattern index (three patterns, all plain). -/
+def wcfg3 : Cfg := { wcfg with pats := #[{}, {}, {}] }
+def wmp (p s e : Nat) : Mat := { wm s e with pat := p }
 end TsVerif.C18
